@@ -81,6 +81,51 @@ func expandFacts(in []Fact) []Fact {
 	return out
 }
 
+// shortCircuitFacts: `switch { case a && b: }` (unlike `if a && b`) materialises the condition as a phi; the phi being
+// true means control came along the one edge that does not carry the constant false, so the last operand is true and
+// so is everything known in the block that evaluated it (dually for || being false).
+func shortCircuitFacts(f Fact, depth int) []Fact {
+	phi, ok := f.V.(*ssa.Phi)
+	if !ok || depth > 3 || (phi.Comment != "&&" && phi.Comment != "||") {
+		return nil
+	}
+	if (phi.Comment == "&&") != f.Val {
+		return nil // a false && (a true ||) says nothing definite
+	}
+	var out []Fact
+	n := 0
+	for k, e := range phi.Edges {
+		if b, isC := constBool(e); isC && b != f.Val {
+			continue // the short-circuit edge
+		}
+		n++
+		if n > 1 {
+			return nil
+		}
+		nf := normFact(e, f.Val)
+		out = append(out, nf)
+		out = append(out, shortCircuitFacts(nf, depth+1)...)
+		if k < len(phi.Block().Preds) {
+			pred := phi.Block().Preds[k]
+			fc := factsFor(pred.Parent())
+			for _, iff := range fc.ifs {
+				ib := iff.Block()
+				if len(ib.Succs) != 2 || ib.Succs[0] == ib.Succs[1] {
+					continue
+				}
+				for s := 0; s < 2; s++ {
+					if fc.edgeDominates(ib, s, pred) {
+						pf := normFact(iff.Cond, s == 0)
+						out = append(out, pf)
+						out = append(out, shortCircuitFacts(pf, depth+1)...)
+					}
+				}
+			}
+		}
+	}
+	return out
+}
+
 func impliedFacts(f Fact) []Fact {
 	var c *ssa.Call
 	var idx int
